@@ -28,7 +28,7 @@ TRUST = [
     "streams are dyadic (multiples of 1/8, |x| <= 24) so that window sums are exact in binary64",
 ]
 
-DELTAS = [0.002, 0.1, 0.5, 0.9, 1.0]
+DELTAS = [0.002, 0.1, 0.5, 0.9, 1.0, 0.0]      # 0 is legal (0 <= delta <= 1): infinite or NaN bounds, never exceeded
 MAXB = [1, 2, 3, 5]
 NST = [1, 2, 3, 32]
 WTH = [0, 1, 2, 3, 4, 5, 6]
